@@ -88,9 +88,10 @@ def apply_contract(interp, c, fv, args, kwargs, node):
         ctx.oblige("call-pre", f"{c.key}/requires[{k}]", truthy(spec.eval(r, env)),
                    {"clause": c.requires_src[k], "callee": c.key})
     outcomes = ["return"] + list(c.raises)
-    conds = [T()] + [truthy(spec.eval(c.raises[x], env)) for x in outcomes[1:]]
-    d = ctx.choose(conds, what=f"call:{c.key}")
-    for lv in c.modifies:
+    # which outcome happens is the callee's choice; the condition attached to a raise is a
+    # two-state predicate (old() = state before the call) assumed after the callee's effects
+    d = ctx.choose([T()] * len(outcomes), what=f"call:{c.key}")
+    for lv in (c.modifies if d == 0 else c.raise_modifies):
         havoc_lvalue(interp, lv, env, tag="m")
     # bind_params / names may have been rebound by havoc of plain names: not visible to caller (python semantics)
     if d == 0:
@@ -102,8 +103,12 @@ def apply_contract(interp, c, fv, args, kwargs, node):
             ctx.assume(truthy(spec.eval(e, env)), f"callee-ensures:{c.key}[{k}]")
         return result
     cls = outcomes[d]
+    ctx.assume(truthy(spec.eval(c.raises[cls], env)), f"callee-raises-cond:{c.key}[{cls}]")
     for e in c.raises_ensures.get(cls, []):
         ctx.assume(truthy(spec.eval(e, env)), f"callee-raises-ensures:{c.key}")
+    if not ctx.replaying and not ctx._feasible(z3.BoolVal(True)):
+        from .paths import PathEnd
+        raise PathEnd()
     exc = VExc(cls, [])
     exc.clsinfo = None
     exc.info["from_contract"] = c.key
